@@ -182,6 +182,11 @@ func execute(sc cx.Script, rep *kit.Report) error {
 	if err != nil {
 		return err
 	}
+	for _, c := range lrep.Classes() {
+		if c != "__discarded" {
+			rep.Class("script:" + c)
+		}
+	}
 	if lrep.Has("__discarded") || setupEnd < 0 {
 		rep.Discard("script-discarded")
 		return nil
@@ -438,6 +443,6 @@ func postCrashWrite(ctx context.Context, db *cesium.DB, sc cx.Script, specs []ts
 func TestC02(t *testing.T) {
 	r := &kit.Runner[cx.Script]{Name: "TestC02", Exec: execute}
 	r.Run(t, func(rt *rapid.T) cx.Script {
-		return cx.Gen(rt, cx.GenOpts{MaxChans: 2, Groups: 1, MinOps: 4, MaxOps: 22, Deletes: true, GC: true, NoReads: true, ForceSync: true, MaxWrite: 6, SideChannels: true})
+		return cx.Gen(rt, cx.GenOpts{MaxChans: 2, Groups: 1, MinOps: 4, MaxOps: 22, Deletes: true, GC: true, NoReads: true, ForceSync: true, MaxWrite: 6, SideChannels: true, PersistIntervals: true})
 	})
 }
